@@ -17,6 +17,10 @@ HANDWRITTEN = [
     "$[?@[?@.a] == 1]", "$[?@.* == @.*]", "$[?$..a < 1]", "$[?@['a', 'b'] == @['a', 'b']]", "$[?@.a[0,0] >= 0]",
     "$[?length(@['a','b']) == 1]", "$[?match(@[0,1], 'a')]", "$[?value(@.a) == @['a','a']]", "$[?@[1:2].a == 1]",
     "$[?@['a'][*] != null]", "$[?(@['a','b']) == 1]", "$[?!(@[0,1] == 1)]", "$[?@.a == 1 || @['a','b'] == 2]",
+    "$[?length(match(@.a, 'x')) == 1]", "$[?count(length(@.a)) > 1]", "$[?match(count(@.*), 'a')]", "$[?value(length(@)) == 1]",
+    "$[?length(search(@, 'a')) > 0]", "$[?count(value(@.*)) == 1]", "$[?match(@.a, match(@.b, 'c'))]", "$[?length(@.a, !@.b) == 1]",
+    "$[?match(@.a, 'x', (@.b))]", "$[?count(@.*, 1, 2) == 1]", "$[?value() == 1]", "$[?nosuch(length(@))]",
+    "$[?(@.a 1)]", "$[?(@.a @.b)]", "$[?(@.a == 1 2)]", "$[?!(@.a null)]", "$[?count((@.* 1)) == 1]", "$[?(1 2) == 3]",
     "$[?count(@[?@['a','b'] == 1]) == 1]", "$[?@[?@[0,1] == 1]]", "$[?@[ 'a' , 'b' ] == 1]", "$[?@[0 , 1] == 1]",
 ]
 
